@@ -5,6 +5,7 @@
 -/
 import TdVerif.Lemmas.C12Split
 import TdVerif.Lemmas.C12Pool
+import TdVerif.Lemmas.C12Tensor
 
 namespace TdVerif.Props.C12
 open TdVerif.C12
@@ -332,5 +333,46 @@ example :
     multithreadApply (β := Nat) (some true) (fun v => if v = 0 then none else some (v * 10)) kids [3, 2, 1, 0]
       = some (some (.node [("a", .leaf 10), ("b", .leaf 20)])) := by
   simp [multithreadApply, submitKids, submitTree, runTasks, rebuildKids, rebuildTree, Store.result, dropNode]
+
+/-! ## 4. the rows view is faithful: any rank, any dim -/
+
+/-- the slice of a coordinate-map tensor that a span denotes -/
+def sliceOf (d : Nat) (t : T α) (p : Nat × Nat) : T α := narrow d p.1 (p.2 - p.1) t
+
+/-- `torch.cat` along `d` of the slices of consecutive spans is the slice from the first start to the
+    last stop — for every rank, every dim `d` inside the shape, every element type -/
+theorem cat_consecutive_slices (d : Nat) (t : T α) (hd : d < t.shape.length) (s e b : Nat)
+    (rest : List (Nat × Nat)) (h : Consecutive s ((s, e) :: rest) b) :
+    (catList d (sliceOf d t (s, e)) (rest.map (sliceOf d t))).Eqv (narrow d s (b - s) t) := by
+  obtain ⟨_, hse, hrest⟩ := h
+  obtain ⟨h1, h2⟩ := narrows_of_consecutive d t rest e b hrest
+  have h3 := catList_narrows d t hd (rest.map fun p => p.2 - p.1) s (e - s)
+  have he : s + (e - s) = e := by omega
+  rw [he] at h3
+  unfold sliceOf
+  simp only
+  have e1 : (rest.map fun p => narrow d p.1 (p.2 - p.1) t) = narrows d t e (rest.map fun p => p.2 - p.1) := h1
+  rw [e1]
+  have e2 : e - s + (rest.map fun p => p.2 - p.1).sum = b - s := by omega
+  rw [e2] at h3
+  exact h3
+
+/-- **eager chunking then `torch.cat(…, dim)` is the identity on a tensordict of any batch shape**:
+    the slices `td.split(ss, d)` (hence `td.chunk(k, d)`) concatenated along `d` give `td` back,
+    coordinate by coordinate. With `genLoop_clamp_eq_splitLoop` the same holds in generator mode. -/
+theorem split_cat_eq_whole (d : Nat) (t : T α) (hd : d < t.shape.length) (ss : Nat) (hss : 0 < ss) :
+    let n := (t.shape[d]?).getD 0
+    (catList d (sliceOf d t (0, min n ss)) ((splitLoop n ss (min n ss)).map (sliceOf d t))).Eqv t := by
+  intro n
+  have hc := splitSlices_consecutive n ss hss
+  unfold splitSlices at hc
+  have h := cat_consecutive_slices d t hd 0 (min n ss) n _ hc
+  simp only [Nat.sub_zero] at h
+  exact T.Eqv.trans h (narrow_full d t hd)
+
+-- non-vacuity: a 2 x 5 tensordict chunked along dim 1 in pieces of 2
+example : (catList 1 (sliceOf 1 (⟨[2, 5], fun c => c⟩ : T (List Nat)) (0, 2))
+    ((splitLoop 5 2 2).map (sliceOf 1 ⟨[2, 5], fun c => c⟩))).Eqv ⟨[2, 5], fun c => c⟩ :=
+  split_cat_eq_whole 1 ⟨[2, 5], fun c => c⟩ (by decide) 2 (by decide)
 
 end TdVerif.Props.C12
